@@ -845,7 +845,7 @@ Section WriteFetch.
   Variable dom : val -> Prop.
   (** document equality: [eq] for JSON and YAML; TOML may reorder the keys of a table *)
   Variable eqv : val -> val -> Prop.
-  Hypothesis eqv_shape : forall a b, eqv a b -> has_len a = has_len b /\ is_mapping a = is_mapping b.
+  Hypothesis eqv_shape : forall a b, eqv a b -> is_mapping a = is_mapping b.
   (** the round-trip law of the (third-party) serialiser / parser pair *)
   Hypothesis law : forall v, dom v ->
     exists s v', c_print c v = Ok s /\ c_parse c s = Ok v' /\ eqv v' v.
@@ -884,9 +884,7 @@ Section WriteFetch.
     format_value FUEL1 ctx p_raw = Ok (VStr path) ->
     format_value FUEL1 ctx k_raw = Ok (VStr key) -> key <> EmptyString ->
     fs_read path files = Some s -> c_parse c s = Ok v' ->
-    fetch_step f c ctx files =
-      if has_len v' then Ok (dict_set (VStr key) v' ctx)
-      else Err "TypeError" ("object of type '" ++ type_name v' ++ "' has no len()").
+    fetch_step f c ctx files = Ok (dict_set (VStr key) v' ctx).
   Proof.
     intros Hget Hp Hk Hne Hread Hparse.
     unfold fetch_step, assert_has_value. rewrite Hget. cbn [bind].
@@ -897,7 +895,7 @@ Section WriteFetch.
     rewrite Hread, Hparse. cbn [bind py_truth].
     assert (Ht : negb (String.eqb key "") = true).
     { apply negb_true_iff. now apply String.eqb_neq. }
-    rewrite Ht. cbn [bind]. reflexivity.
+    rewrite Ht. reflexivity.
   Qed.
 
   (** fetch without a key: the parsed mapping is merged into the context root *)
@@ -921,7 +919,7 @@ Section WriteFetch.
     format_value FUEL1 ctx1 p_raw = Ok (VStr path) ->
     format_value FUEL1 ctx1 pl_raw = Ok fp ->
     (f = FToml -> py_truth fp = true) ->
-    dom fp -> has_len fp = true ->
+    dom fp ->
     sget (fetch_key f) ctx2 = Some (VDict [(VStr "path", p2_raw); (VStr "key", k_raw)]) ->
     format_value FUEL1 ctx2 p2_raw = Ok (VStr path) ->
     format_value FUEL1 ctx2 k_raw = Ok (VStr key) -> key <> EmptyString ->
@@ -930,12 +928,11 @@ Section WriteFetch.
       fetch_step f c ctx2 files' = Ok (dict_set (VStr key) v' ctx2) /\
       eqv v' fp.
   Proof.
-    intros Hw Hp Hpl Ht Hdom Hlen Hf Hp2 Hk Hne.
+    intros Hw Hp Hpl Ht Hdom Hf Hp2 Hk Hne.
     destruct (write_step_ok ctx1 files _ _ _ _ Hw Hp Hpl Ht Hdom)
       as (s & v' & _ & Hparse & Heq & Hws).
     exists (fs_write path s files), v'. split; [exact Hws|]. split; [|exact Heq].
-    rewrite (fetch_step_key ctx2 _ _ _ path key s v' Hf Hp2 Hk Hne (fs_read_write _ _ _) Hparse).
-    destruct (eqv_shape _ _ Heq) as [Hl _]. now rewrite Hl, Hlen.
+    apply (fetch_step_key ctx2 _ _ _ path key s v' Hf Hp2 Hk Hne (fs_read_write _ _ _) Hparse).
   Qed.
 
   (** fetch ∘ write, no key: a mapping payload is merged at the root *)
@@ -955,7 +952,7 @@ Section WriteFetch.
     intros Hw Hp Hpl Ht Hdom Hmap Hf Hp2.
     destruct (write_step_ok ctx1 files _ _ _ _ Hw Hp Hpl Ht Hdom)
       as (s & v' & _ & Hparse & Heq & Hws).
-    destruct (eqv_shape _ _ Heq) as [_ Hm]. rewrite Hmap in Hm.
+    pose proof (eqv_shape _ _ Heq) as Hm. rewrite Hmap in Hm.
     destruct v' as [| | | | | | | | |pl'| | | | |]; try discriminate Hm.
     exists (fs_write path s files), pl'. split; [exact Hws|]. split; [|exact Heq].
     apply (fetch_step_root ctx2 _ _ path s pl' Hf Hp2 (fs_read_write _ _ _) Hparse).
@@ -978,7 +975,7 @@ Section WriteFetch.
       as (s & v' & _ & Hparse & Heq & Hws).
     exists (fs_write path s files), v'. split; [exact Hws|]. split; [|exact Heq].
     unfold file_parser. cbn [join]. rewrite fs_read_write, Hparse. cbn [bind].
-    destruct (eqv_shape _ _ Heq) as [_ Hm]. rewrite Hmap in Hm. rewrite Hm.
+    pose proof (eqv_shape _ _ Heq) as Hm. rewrite Hmap in Hm. rewrite Hm.
     destruct f; reflexivity.
   Qed.
 End WriteFetch.
@@ -991,8 +988,8 @@ Proof.
   exists s, v. cbn [json_codec c_print c_parse]. rewrite Hp, Hq. repeat split; reflexivity.
 Qed.
 
-Lemma eq_shape : forall a b : val, a = b -> has_len a = has_len b /\ is_mapping a = is_mapping b.
-Proof. intros a b ->. split; reflexivity. Qed.
+Lemma eq_shape : forall a b : val, a = b -> is_mapping a = is_mapping b.
+Proof. intros a b ->. reflexivity. Qed.
 
 (** * Part 3: fileformat = every string node replaced by its formatted value *)
 Section StringNodes.
@@ -1138,26 +1135,11 @@ Qed.
 
 (** ** equality up to key order respects the shape the steps look at *)
 Lemma eqv_shape_bool : forall a b : val,
-  val_eqv a b = true -> has_len a = has_len b /\ is_mapping a = is_mapping b.
+  val_eqv a b = true -> is_mapping a = is_mapping b.
 Proof.
-  intros a b. destruct a, b; intros H; try (split; reflexivity);
+  intros a b. destruct a, b; intros H; try reflexivity;
     cbn [val_eqv val_eqb] in H; discriminate H.
 Qed.
-
-(** ** the full-strength write/fetch statement fails for a document whose root is a
-    scalar without a length: the closing log line of fetchjson / fetchyaml calls
-    len(payload) *)
-Definition scalar_ctx : dict :=
-  [(VStr "fileWriteJson", VDict [(VStr "path", VStr "/T/n.json"); (VStr "payload", VInt 5)]);
-   (VStr "fetchJson", VDict [(VStr "path", VStr "/T/n.json"); (VStr "key", VStr "out")])].
-
-Lemma fetch_scalar_root_fails :
-  exists ctx files,
-    json_representable (VInt 5) /\
-    write_step FJson json_codec ctx [] = Ok files /\
-    fs_read "/T/n.json" files = Some "5" /\
-    fetch_step FJson json_codec ctx files = Err "TypeError" "object of type 'int' has no len()".
-Proof. exists scalar_ctx, [("/T/n.json", "5")]. vm_compute. repeat split. Qed.
 
 Lemma json_not_toml : FJson = FToml -> forall P : Prop, P.
 Proof. discriminate. Qed.
